@@ -5,7 +5,16 @@ Synthetic points go through the PUBLIC entry point `computeHomogenizationFunctio
 (`MobilityData`: stable phase names, mobility rows, fractions) is pre-seeded into a real `HashTable`, so
 the call takes the cache-hit path of `_computeSingleMobility` and then the real post-process and averaging
 functions; a stand-in thermodynamics object only supplies `.phases` / `.elements`.  A few points are also
-evaluated on a shipped database (NICRAL_TDB) with the real equilibrium calculation."""
+evaluated on a shipped database (NICRAL_TDB) with the real equilibrium calculation.
+
+MANY points through ONE shared table (section "many points through ONE shared HashTable"): histories of control calls
+(setHashSensitivity / clearCache / enableCaching) and pipeline calls (scalar, array, temperature gradient at one composition,
+composition profile at one temperature; repeated sweeps, rule / post-process switches) over points whose compositions AND
+temperatures lie below, near and above the table's resolution 10^-s and inside one kelvin, at precisions s = 0..8, on the
+real MISS path of `_computeSingleMobility` (an analytic thermodynamics stand-in, and NICRAL_TDB with pycalphad).  Oracle: every
+answer = the fresh evaluation (no table) of the point itself or of a point within 10^-s of it evaluated before on this table
+(theorem cached_answer_is_fresh_within_resolution); correspondence: which record serves which point, and every value, against
+Homog.runPipeline on HashCache.keyCast 64."""
 import copy, math, traceback, warnings
 import numpy as np
 import vlib
@@ -13,8 +22,8 @@ from vlib import Result, enc_list, enc_ilist, f2b, Toks, close
 
 PROP = 'C17'
 META = {
-    'level_text': 'Lean 4 theorems for any linearly ordered field, any number of phases, M_i > 0, f_i >= 0, sum f = 1: min M <= W_lower <= HS_lower <= HS_upper <= W_upper <= max M for the public averaging functions (tangent-line inequality summed with weights; the code\'s Ak form proved equal to 1/sum f/(M+2g) - 2g), invariance of all five rules under List.Perm of the phase rows, single phase => that mobility, labyrinth = upper Wiener at factor 1 and <= it for every real factor >= 1 (and after the clipping setter), exclude/predefined act on the rows whose stable-phase name matches and never fail for database-phase names in single- or multi-phase regions, and any history of evaluations at a cached point returns for each configuration the answer on the original record and leaves the record unchanged; witnesses prove that the code as found violated the by-name and the twice=once clauses. The model is tied to HomogenizationParameters.py by differential correspondence on every run and the property is evaluated on the implementation against an independent scalar by-name reference.',
-    'level_note': 'Trusted: Lean kernel + Mathlib, axioms propext/Classical.choice/Quot.sound; the hand model KawinV.Homog equals the NumPy code only as far as this run compared them; exact-field arithmetic instead of IEEE doubles (ordering checked on doubles with rtol 1e-9 scaled by the largest mobility because the upper Hashin-Shtrikman form cancels); the bound chain is proved for defined (positive) mobilities, for undefined entries (-1 -> tiny/max) only the within-pair orderings; columns where every phase is undefined (NaN from the lower HS rule) and fractions off the simplex after `exclude` are outside the bound clauses; the equilibrium calculation that fills the record is pycalphad and is only exercised on a few shipped-database points; the constructor does not clip labyrinthFactor (documented range [1,2] is assumed there, the setter is modelled).',
+    'level_text': 'Lean 4 theorems for any linearly ordered field, any number of phases, M_i > 0, f_i >= 0, sum f = 1: min M <= W_lower <= HS_lower <= HS_upper <= W_upper <= max M for the public averaging functions (tangent-line inequality summed with weights; the code\'s Ak form proved equal to 1/sum f/(M+2g) - 2g), invariance of all five rules under List.Perm of the phase rows, single phase => that mobility, labyrinth = upper Wiener at factor 1 and <= it for every real factor >= 1 (and after the clipping setter), exclude/predefined act on the rows whose stable-phase name matches and never fail for database-phase names in single- or multi-phase regions, and any history of evaluations at a cached point returns for each configuration the answer on the original record and leaves the record unchanged; witnesses prove that the code as found violated the by-name and the twice=once clauses. For many points through one shared hash table (Homog.runPipeline = the HashTable machine of KawinV.HashCache composed with the per-point evaluation), for every thermodynamics function and every history of enable/clear/precision changes and scalar or array calls: each answer is the fresh (uncached) evaluation, under the call's rule and post-processing, of a point whose composition coordinates and temperature all differ by less than 10^-s from the point asked for (equal keys of the code's key, which scales composition AND temperature by 10^s, force that for non-negative coordinates), of the point itself with caching off, and asking again gives the same answer; a key that leaves the temperature unscaled is proved to merge T and T+0.8 K at every precision. The model is tied to HomogenizationParameters.py by differential correspondence on every run and the property is evaluated on the implementation against an independent scalar by-name reference.',
+    'level_note': 'Trusted: Lean kernel + Mathlib, axioms propext/Classical.choice/Quot.sound; the hand model KawinV.Homog equals the NumPy code only as far as this run compared them; exact-field arithmetic instead of IEEE doubles (ordering checked on doubles with rtol 1e-9 scaled by the largest mobility because the upper Hashin-Shtrikman form cancels); the bound chain is proved for defined (positive) mobilities, for undefined entries (-1 -> tiny/max) only the within-pair orderings; columns where every phase is undefined (NaN from the lower HS rule) and fractions off the simplex after `exclude` are outside the bound clauses; the equilibrium calculation that fills the record is pycalphad and is only exercised on a few shipped-database points; the constructor does not clip labyrinthFactor (documented range [1,2] is assumed there, the setter is modelled); the shared-table theorem is over exact fields with the unbounded integer key (HashCache.keyExact); the driver runs the 64-bit key (keyCast 64, equal to it for |v*10^s| < 2^63: C09 keyCast_faithful) and is compared with the implementation on which record serves which point; Python hash of the integer tuple is taken as injective; the cached-vs-fresh oracle allows for the rounding of the double product v*10^s (4e-16 relative).',
     'technique': 'Lean 4 proof over ordered fields (+ real powers) + model/implementation differential correspondence + by-name scalar reference',
     'design_ref': 'DESIGN.md section 6, C17',
 }
@@ -23,6 +32,8 @@ MONITORED = [
     'permutation invariance of the whole pipeline (post-processing + rule) under reordering of the stable rows: oracle only (the theorem covers the rules)',
     'a fraction vector at a vertex of the simplex with several rows returns the mobility of the phase with fraction 1: oracle only (the theorem covers a single row)',
     'shipped-database points (NICRAL_TDB): record produced by pycalphad, then by-name / twice=once oracle',
+    'cached = fresh through a shared HashTable with the real equilibrium (NICRAL_TDB Ni-Cr, Ni-Cr-Al) and with the analytic stand-in: oracle on the implementation (the theorem is about the model; determinism of pycalphad for one (x, T) is assumed, rtol 1e-9)',
+    'chemical potentials returned by computeHomogenizationFunction through the shared table equal the fresh ones: oracle only',
 ]
 ASSUMPTIONS = [
     'defined mobilities are positive and finite, fractions non-negative and summing to one (as pycalphad returns them); NaN entries outside the statement',
@@ -31,7 +42,8 @@ ASSUMPTIONS = [
     'exact-field theorems vs IEEE doubles: ordering compared with rtol 1e-9 scaled by the largest mobility of the column',
 ]
 TRUSTED = ['np.where/np.sum/np.amax/np.amin/np.argmax/np.power/np.clip semantics as modelled in KawinV.Homog (compared on every run)',
-           'HashTable keying by (x, T): a pre-seeded record is what _computeSingleMobility returns on a hit']
+           'HashTable keying by (x, T): a pre-seeded record is what _computeSingleMobility returns on a hit',
+           'Python hash() of a tuple of int64 is injective on the keys met; identity of the MobilityData object held by the table tells which point a record was computed for']
 
 TINY = float(np.finfo(np.float64).tiny)
 BIG = float(np.finfo(np.float64).max)
@@ -892,6 +904,7 @@ def check_purity(case, res, model_ans=None):
     E1 = len(P[0][0])
     one = (lambda x: x[0]) if E1 == 1 else (lambda x: list(x))
     desc = {k: v for k, v in case.items() if not k.startswith('_')}
+    system = 'synthetic-thermodynamics' if case['therm']['kind'] == 'analytic' else 'NICRAL_TDB'
     fresh = {}
 
     def fresh_eval(ci, pi):
@@ -950,7 +963,10 @@ def check_purity(case, res, model_ans=None):
                     res.violate('post-%s-unknown-name-handling' % post_tag(cfg['post']), 'a name that is not a database phase was not reported as ValueError',
                                 cdesc, str(got), 'ValueError')
             if flag and ids:
-                stored.append(ids[0])       # the first point's record is added before the exception
+                stored.append(ids[0])       # the first point's record is looked up / added before the exception
+                rec = ht.retrieveFromHashTable(np.array(P[ids[0]][0], dtype=np.float64), np.float64(P[ids[0]][1]))
+                if rec is not None and id(rec) not in seen_rec:
+                    seen_rec[id(rec)] = ids[0]; keep.append(rec)
             continue
         outs, mus = got
         impl_out.append(outs)
@@ -984,7 +1000,7 @@ def check_purity(case, res, model_ans=None):
                 hit = None
                 for q, why in others:
                     f = fresh_eval(ci, q)
-                    if q != pi and not isinstance(f, str) and same_vals(out, f[0]):
+                    if q != pi and not isinstance(f, str) and same_vals(out, f[0]) and same_vals(mu, f[1]):
                         hit = (q, why); break
                 if hit is None:
                     if not isinstance(f0, str) and same_vals(out, f0[0]):
@@ -1005,14 +1021,14 @@ def check_purity(case, res, model_ans=None):
                     what = ('the answer for x=%s, T=%r through the shared table (precision %d: points closer than %g in every coordinate may share a record) '
                             'is the fresh answer of x=%s, T=%r evaluated before it (|dT| = %.6g K)' % (
                                 list(P[pi][0]), P[pi][1], sens, 10.0 ** (-sens), list(P[q][0]), P[q][1], abs(P[pi][1] - P[q][1])))
-                res.violate('cached-vs-fresh:%s-call:%s' % ('scalar' if form == 'scalar' else 'array', cls), what,
+                res.violate('cached-vs-fresh:%s:%s-call:%s' % (system, 'scalar' if form == 'scalar' else 'array', cls), what,
                             dict(cdesc, failing_point=pi, position_in_call=j, served_from=(hit[0] if hit else None)), out, want)
             # ---- twice = once inside one epoch
             prev = epoch_answers.get((ci, pi))
             if prev is not None:
                 res.count('purity:same-point-again')
                 if not (same_vals(out, prev[0], 1e-12) and same_vals(mu, prev[1], 1e-12)):
-                    res.violate('twice-differs-from-once:shared-table:%s-call' % ('scalar' if form == 'scalar' else 'array'),
+                    res.violate('twice-differs-from-once:shared-table:%s:%s-call' % (system, 'scalar' if form == 'scalar' else 'array'),
                                 'the same point under the same configuration, asked again on the same table, gives another answer',
                                 dict(cdesc, failing_point=pi, position_in_call=j), out, prev[0])
             else:
@@ -1105,7 +1121,11 @@ def corr(ctx, n_hist=None, n_rules=None, oracle_only=False, n_pur=None):
                 '1-3 element columns, mobility rows similar/decades/wide/equal with 30% undefined rows, fractions interior/edge/vertex/tiny/equal on the simplex, '
                 '2-5 configurations (rule x labyrinth factor x post-processing none/predefined/majority/exclude, 4% unknown names, 30% repeats) evaluated in sequence '
                 'through computeHomogenizationFunction on one pre-seeded HashTable; (b) rules cases: one column through the five public averaging functions; '
-                '(c) NICRAL_TDB points with the real equilibrium. non-trivial = at least 2 stable phases; distinct = full input tuple')
+                '(c) NICRAL_TDB points with the real equilibrium; (d) shared-table histories: analytic thermodynamics stand-in (2-4 elements, 1-4 phases, Arrhenius mobilities) '
+                'or NICRAL_TDB, pool of points = 1-3 base compositions x temperature offsets {0, .25, .3, .5, .8, 1, 1.3, 5 K, 0.3/0.9/1.1/3/12 x 10^-s} + composition offsets '
+                '{0.4, 1.2, 3, 30 x 10^-s, 0.01}, precision s in 0..8, 3-9 calls (scalar / array / gradient along T at one x / profile along x at one T, 40% repeats of an '
+                'earlier call, half of them under another rule or post-processing) with 20% control events (precision change, clear, enable on/off) in between. '
+                'non-trivial = at least 2 stable phases (a-c), at least 2 points and 2 calls (d); distinct = full input tuple')
     N1 = n_hist or ctx.n(6000, 80000)
     N2 = n_rules or ctx.n(10000, 150000)
     N3 = n_pur or ctx.n(300, 5000)
